@@ -334,4 +334,218 @@ theorem dueLoop_keeps {par : Nat → Sess} {P : Nat → Nat → Nat → Prop} (h
           rw [nothingDue_iff]; intro h r' hh; rw [hn] at hh; cases hh; omega
         rw [dueLoop_not_due _ l hnd]; exact Keeps.refl _ _ _
 
+/-! ### events -/
+
+/-- what one event does to the counters of (s, mid) -/
+def StepKeeps (s mid : Nat) (l : L) (ev : Ev) : Prop :=
+  Phi s mid (Msg.step l ev) + ackW s mid l ev = Phi s mid l + accW s mid l ev ∧
+  Psi s mid (Msg.step l ev) ≤ Psi s mid l + accW s mid l ev ∧
+  (Psi s mid l = 0 → accW s mid l ev = 0 → txC s mid (Msg.step l ev).out = txC s mid l.out)
+
+theorem afterRx_keeps {par : Nat → Sess} {P : Nat → Nat → Nat → Prop} (hp : GPar par) (s mid : Nat) (l : L)
+    (hi : FInv False par P l) : Keeps s mid l (afterRx l) := by
+  unfold afterRx
+  rw [prepareCore_fst]
+  exact dueLoop_keeps hp s mid _ l hi
+
+/-- removal of a node from the send queue, then anything that keeps the counters -/
+theorem removed_then {s mid : Nat} {l l' : L} (s' m' : Nat)
+    (hk : Keeps s mid { l with q := { l.q with nodes := (removeNode l.q.nodes s' m').2 } } l') (extra : Nat)
+    (hx : extra = (if (s' = s ∧ m' = mid) ∧ (removeNode l.q.nodes s' m').1 ≠ none then 1 else 0)) :
+    Phi s mid l' + extra = Phi s mid l ∧ Psi s mid l' ≤ Psi s mid l ∧
+    (Psi s mid l = 0 → txC s mid l'.out = txC s mid l.out) := by
+  have hpc := pendC_removeNode s mid l.q.nodes s' m'
+  rw [← hx] at hpc
+  have e1 : Phi s mid ({ l with q := { l.q with nodes := (removeNode l.q.nodes s' m').2 } } : L) + extra =
+      Phi s mid l := by
+    simp only [Phi]
+    show nackC s mid l.out + pendC s mid (removeNode l.q.nodes s' m').2 + midC mid (l.getS s).delayq + _ = _
+    omega
+  have e2 : Psi s mid ({ l with q := { l.q with nodes := (removeNode l.q.nodes s' m').2 } } : L) + extra =
+      Psi s mid l := by
+    simp only [Psi]
+    show pendC s mid (removeNode l.q.nodes s' m').2 + midC mid (l.getS s).delayq + _ = _
+    omega
+  refine ⟨by have := hk.phi; omega, by have := hk.psi; omega, ?_⟩
+  intro h0
+  exact hk.tx (by omega)
+
+theorem step_keeps {par : Nat → Sess} {P : Nat → Nat → Nat → Prop} (hp : GPar par) (s mid : Nat) (l : L) (ev : Ev)
+    (hi : FInv False par P l) (hok : EvG l ev) : StepKeeps s mid l ev := by
+  unfold StepKeeps
+  cases ev with
+  | setNow t => exact ⟨rfl, Nat.le_refl _, fun _ _ => rfl⟩
+  | prepare =>
+    have hk := dueLoop_keeps hp s mid (dueFuel l) l hi
+    simp only [Msg.step, prepare, ackW, accW, Nat.add_zero]
+    rcases hpc : prepareCore l with ⟨l', w⟩
+    have e : l' = dueLoop (dueFuel l) l := by rw [← prepareCore_fst, hpc]
+    subst e
+    have hk2 := Keeps.trans hk (keeps_emit_other s mid _ (.wait (dueLoop (dueFuel l) l).now w) rfl (by intros; simp))
+    exact ⟨hk2.phi, hk2.psi, fun h0 _ => hk2.tx h0⟩
+  | submit s' con m' r =>
+    obtain ⟨hcon, hT, h64⟩ := hok
+    subst hcon
+    obtain ⟨ca, dq, hg, hle, hdq⟩ := hi.sess s'
+    obtain ⟨hest, hopen, hns, h256⟩ := hp s'
+    have hso : (l.getS s').sockOpen = true := by rw [hg]; exact hopen
+    simp only [ackW, Nat.add_zero]
+    by_cases hroom : ca < (par s').nstart
+    · have hgt : gate (l.getS s') true = false := by
+        have : ¬ ((l.getS s').conActive ≥ (l.getS s').nstart) := by rw [hg]; simp only []; omega
+        have he : (l.getS s').est = true := by rw [hg]; exact hest
+        simp [gate, he, this]
+      have hM : Msg.step l (.submit s' true m' r) =
+          (waitAck ((l.emit (.tx l.now s' m' 0 true)).setS s'
+              { (l.getS s') with conActive := ((l.getS s').conActive + 1) % 256 })
+            { sess := s', mid := m', t := 0,
+              timeout := calcTimeout (l.getS s').atI (l.getS s').atF (l.getS s').arfI (l.getS s').arfF r,
+              cnt := 0, tok := m', con := true }).emit (.sub (some m')) := by
+        simp only [Msg.step, submit, hso, hgt]
+        simp
+      have hacc : accW s mid l (.submit s' true m' r) = (if s' = s ∧ m' = mid then 1 else 0) := by
+        simp [accW, hgt]
+      rw [hM, hacc]
+      generalize calcTimeout (l.getS s').atI (l.getS s').atF (l.getS s').arfI (l.getS s').arfF r = T
+      have hpq := pendC_enqueue s mid l.q l.now (T * 2 ^ 0 % 4294967296)
+        { sess := s', mid := m', t := 0, timeout := T, cnt := 0, tok := m', con := true } (Or.inr hi.base)
+      have hd : (L.getS (L.setS (l.emit (.tx l.now s' m' 0 true)) s'
+          { (l.getS s') with conActive := ((l.getS s').conActive + 1) % 256 }) s).delayq = (l.getS s).delayq :=
+        delayq_setS_keep (l.emit (.tx l.now s' m' 0 true)) s' s
+          { (l.getS s') with conActive := ((l.getS s').conActive + 1) % 256 } rfl
+      simp only [] at hpq
+      simp only [Phi, Psi]
+      refine ⟨?_, ?_, ?_⟩
+      · show nackC s mid (_ :: _ :: l.out) + pendC s mid (enqueue l.q l.now _ _).nodes +
+          midC mid (L.getS (L.setS (l.emit _) s' _) s).delayq = _
+        rw [nackC_cons_other s mid _ _ (Or.inl rfl), nackC_cons_other s mid _ _ (Or.inr ⟨_, _, _, _, _, rfl⟩), hpq, hd]
+        show _ = nackC s mid l.out + pendC s mid l.q.nodes + midC mid (l.getS s).delayq + _
+        omega
+      · show pendC s mid (enqueue l.q l.now _ _).nodes + midC mid (L.getS (L.setS (l.emit _) s' _) s).delayq ≤ _
+        rw [hpq, hd]
+        show _ ≤ pendC s mid l.q.nodes + midC mid (l.getS s).delayq + _
+        omega
+      · intro _ h0
+        have hne : ¬ (s' = s ∧ m' = mid) := by
+          intro hk; simp [hk] at h0
+        show txC s mid (_ :: _ :: l.out) = _
+        simp [txC, hne]
+    · have hgt : gate (l.getS s') true = true := by
+        have : (l.getS s').conActive ≥ (l.getS s').nstart := by rw [hg]; simp only []; omega
+        simp [gate, this]
+      by_cases hany : (l.getS s').delayq.any (fun x => x.mid = m') = true
+      · have hM : Msg.step l (.submit s' true m' r) = l.emit (.sub none) := by
+          simp only [Msg.step, submit, hso, hgt]
+          simp only [Bool.not_true, Bool.false_eq_true, if_false, if_true]
+          rw [if_pos]
+          simpa using hany
+        have hacc : accW s mid l (.submit s' true m' r) = 0 := by
+          simp only [accW, hgt, hany, and_self, not_true_eq_false, and_false, if_false]
+        rw [hM, hacc]
+        have hk := keeps_emit_other s mid l (.sub none) rfl (by intros; simp)
+        exact ⟨hk.phi, hk.psi, fun h0 _ => hk.tx h0⟩
+      · have hM : Msg.step l (.submit s' true m' r) =
+            (l.setS s' { (l.getS s') with delayq := (l.getS s').delayq ++
+              [{ sess := s', mid := m', t := 0,
+                 timeout := calcTimeout (l.getS s').atI (l.getS s').atF (l.getS s').arfI (l.getS s').arfF r,
+                 cnt := 0, tok := m', con := true }] }).emit (.sub (some m')) := by
+          simp only [Msg.step, submit, hso, hgt]
+          simp only [Bool.not_true, Bool.false_eq_true, if_false, if_true]
+          rw [if_neg]
+          simpa using hany
+        have hacc : accW s mid l (.submit s' true m' r) = (if s' = s ∧ m' = mid then 1 else 0) := by
+          simp [accW, hgt, hany]
+        rw [hM, hacc]
+        generalize calcTimeout (l.getS s').atI (l.getS s').atF (l.getS s').arfI (l.getS s').arfF r = T
+        -- gated ⇒ con_active ≥ 1 ⇒ the session exists
+        have hin : s' < l.sess.length := by
+          apply Classical.byContradiction
+          intro hn
+          have hdflt := getS_default hn
+          rw [hdflt] at hgt
+          simp [gate] at hgt
+        have hd : midC mid ((l.setS s' { (l.getS s') with delayq := (l.getS s').delayq ++
+              [{ sess := s', mid := m', t := 0, timeout := T, cnt := 0, tok := m', con := true }] }).getS s).delayq =
+            midC mid (l.getS s).delayq + (if s' = s ∧ m' = mid then 1 else 0) := by
+          by_cases hss : s' = s
+          · subst hss
+            rw [getS_setS_in _ hin]
+            simp only [midC_append, midC, true_and, Nat.add_zero]
+          · rw [getS_setS_ne _ hss]
+            simp [hss]
+        simp only [Phi, Psi]
+        refine ⟨?_, ?_, ?_⟩
+        · show nackC s mid (_ :: l.out) + pendC s mid l.q.nodes + midC mid (L.getS (L.setS l s' _) s).delayq = _
+          rw [nackC_cons_other s mid _ _ (Or.inl rfl), hd]
+          omega
+        · show pendC s mid l.q.nodes + midC mid (L.getS (L.setS l s' _) s).delayq ≤ _
+          rw [hd]
+          omega
+        · intro _ _
+          show txC s mid (_ :: l.out) = _
+          simp [txC]
+  | rxAck s' m' =>
+    obtain ⟨ca, dq, hg, hle, hdq⟩ := hi.sess s'
+    have hso : (l.getS s').sockOpen = true := by rw [hg]; exact (hp s').2.1
+    obtain ⟨hi1, _, _⟩ := removed_finv l s' m' hi (futF l)
+    simp only [Msg.step, hso, if_true, accW, Nat.add_zero]
+    have hk1 : Keeps s mid { l with q := { l.q with nodes := (removeNode l.q.nodes s' m').2 } } (rxAck l s' m') ∧
+        FInv False par P (rxAck l s' m') := by
+      unfold rxAck
+      rcases hrm : removeNode l.q.nodes s' m' with ⟨sent, rest⟩
+      rw [hrm] at hi1
+      cases sent with
+      | none => exact ⟨Keeps.refl _ _ _, hi1⟩
+      | some n => exact ⟨release_keeps hp s mid _ s' hi1, (release_finv hp _ s' hi1 (futF _)).1⟩
+    have hk := Keeps.trans hk1.1 (afterRx_keeps hp s mid _ hk1.2)
+    have := removed_then s' m' hk (ackW s mid l (.rxAck s' m')) rfl
+    exact ⟨this.1, this.2.1, fun h0 _ => this.2.2 h0⟩
+  | rxRst s' m' =>
+    obtain ⟨ca, dq, hg, hle, hdq⟩ := hi.sess s'
+    have hso : (l.getS s').sockOpen = true := by rw [hg]; exact (hp s').2.1
+    obtain ⟨hi1, _, hkey⟩ := removed_finv l s' m' hi (futF l)
+    simp only [Msg.step, hso, if_true, accW, ackW, Nat.add_zero]
+    -- the removed node comes back as its NACK
+    have hmain : Phi s mid (rxRst l s' m') = Phi s mid l ∧ Psi s mid (rxRst l s' m') ≤ Psi s mid l ∧
+        (Psi s mid l = 0 → txC s mid (rxRst l s' m').out = txC s mid l.out) ∧ FInv False par P (rxRst l s' m') := by
+      have hrt := fun l' hk => @removed_then s mid l l' s' m' hk
+      unfold rxRst
+      rcases hrm : removeNode l.q.nodes s' m' with ⟨sent, rest⟩
+      rw [hrm] at hi1 hkey hrt
+      simp only [] at hi1 hkey hrt ⊢
+      cases sent with
+      | none =>
+        have hk := keeps_emit_other s mid { l with q := { l.q with nodes := rest } }
+          (.nack l.now s' .rst m' false) rfl (by intros; simp)
+        have := hrt _ hk 0 (by simp)
+        exact ⟨this.1, this.2.1, this.2.2, finv_emit_other _ hi1 (by intros; simp)⟩
+      | some n =>
+        obtain ⟨hcon, hmid⟩ := hkey n rfl
+        simp only [hcon, if_true]
+        have hk := release_keeps hp s mid _ s' hi1
+        have hf := (release_finv hp _ s' hi1 (futF _)).1
+        have := hrt _ hk (if s' = s ∧ m' = mid then 1 else 0) (by simp)
+        have hw : nackW s mid (.nack (release { l with q := { l.q with nodes := rest } } s').now s' .rst n.mid true) =
+            (if s' = s ∧ m' = mid then 1 else 0) := by simp [nackW, obsM, hmid]
+        refine ⟨?_, ?_, ?_, finv_emit_other _ hf (by intros; simp)⟩
+        · have h1 := this.1
+          simp only [Phi] at h1 ⊢
+          show nackC s mid (_ :: (release _ s').out) + pendC s mid (release _ s').q.nodes +
+            midC mid ((release _ s').getS s).delayq = _
+          simp only [nackC, hw]
+          omega
+        · exact this.2.1
+        · intro h0
+          show txC s mid (_ :: (release _ s').out) = _
+          rw [txC_cons_other _ _ _ _ (by intros; simp)]
+          exact this.2.2 h0
+    have hk := afterRx_keeps hp s mid _ hmain.2.2.2
+    refine ⟨by rw [hk.phi, hmain.1], Nat.le_trans hk.psi hmain.2.1, fun h0 _ => ?_⟩
+    rw [hk.tx (by have := hmain.2.1; omega), hmain.2.2.1 h0]
+  | rxNon s' m' tok => exact absurd hok (by simp [EvG])
+  | rxBad s' m' => exact absurd hok (by simp [EvG])
+  | hold s' => exact absurd hok (by simp [EvG])
+  | connect s' => exact absurd hok (by simp [EvG])
+  | disconnect s' => exact absurd hok (by simp [EvG])
+
 end Coap.Sched
